@@ -1288,8 +1288,12 @@ func (st *Runtime) evalPipeCallExpression(baseExpr reflect.Value, args CallArgs,
 	if baseExpr.Kind() == reflect.Func && baseExpr.IsNil() {
 		return reflect.Value{}, errors.New("call of nil function")
 	}
-	if funcType.AssignableTo(baseExpr.Type()) {
+	if baseExpr.Type() == funcType {
 		return baseExpr.Interface().(Func)(Arguments{runtime: st, args: args, pipedVal: pipedArg}), nil
+	}
+	if baseExpr.Type().ConvertibleTo(funcType) {
+		// a func(Arguments) reflect.Value that was not declared as a jet.Func
+		return baseExpr.Convert(funcType).Interface().(Func)(Arguments{runtime: st, args: args, pipedVal: pipedArg}), nil
 	}
 
 	argValues, err := st.evaluateArgs(baseExpr.Type(), args, pipedArg)
